@@ -125,6 +125,9 @@ func C20(c *Ctx) {
 	sectionTypes(c)
 }
 
+// theCbRecv: the receiver parameter of the bound-method callback under analysis ("" for closure literals).
+var theCbRecv string
+
 func closureArg(v ssa.Value) *ssa.Function {
 	for {
 		switch x := v.(type) {
@@ -181,6 +184,9 @@ func mentionsParam(e *ir.Expr, name string) bool {
 
 func mentionsRequest(e *ir.Expr) bool {
 	return e.Any(func(x *ir.Expr) bool {
+		if theCbRecv != "" && x.Op == "field" && len(x.Args) == 1 && x.Args[0].Op == "param" && x.Args[0].Name == theCbRecv {
+			return true // what the object the callback is bound to was given by the query method
+		}
 		return (x.Op == "free" || x.Op == "captured" || x.Op == "param") && (x.Name == "req" || strings.HasPrefix(x.Name, "req")) ||
 			x.Op == "field" && len(x.Args) == 1 && (x.Args[0].Op == "free" || x.Args[0].Op == "captured")
 	})
@@ -188,13 +194,23 @@ func mentionsRequest(e *ir.Expr) bool {
 
 func filteredPaginateCallback(c *Ctx, parent *ssa.Function, call *ssa.Call, cb *ssa.Function) {
 	w, r := c.W, c.R
+	// a bound method value (`page.visit`): the method is the callback, its receiver's fields are what it collects into
+	off := 0
+	if real := ir.BoundTarget(cb); real != nil {
+		cb, off = real, 1
+	}
 	key := fn(cb)
-	if len(cb.Params) != 3 {
+	if len(cb.Params) != 3+off {
 		r.Undecided("A12.accumulate-guard", key, w.Pos(cb.Pos()), "callback has (key, value, accumulate) parameters", "unexpected signature")
 		return
 	}
-	acc := cb.Params[2]
-	val := cb.Params[1]
+	acc := cb.Params[2+off]
+	val := cb.Params[1+off]
+	theCbRecv = ""
+	if off == 1 {
+		theCbRecv = cb.Params[0].Name()
+	}
+	defer func() { theCbRecv = "" }()
 	tr, fa := paramBoolEdges(cb, acc)
 	// (a) appends to captured result slices only under accumulate
 	nApp := 0
@@ -204,13 +220,19 @@ func filteredPaginateCallback(c *Ctx, parent *ssa.Function, call *ssa.Call, cb *
 			if !ok {
 				continue
 			}
-			if _, isFree := st.Addr.(*ssa.FreeVar); !isFree {
+			_, isFree := st.Addr.(*ssa.FreeVar)
+			addrName := st.Addr.Name()
+			if fa2, ok := st.Addr.(*ssa.FieldAddr); ok && off == 1 && fa2.X == ssa.Value(cb.Params[0]) {
+				isFree = true // a field of the receiver the callback is bound to
+				addrName = ir.FieldName(fa2.X.Type(), fa2.Field)
+			}
+			if !isFree {
 				continue
 			}
 			nApp++
 			// the store must be unreachable when accumulate-true edges are removed
 			guarded := !ir.Reaches(cb, in, ir.Cut{Edges: tr})
-			r.Require(guarded, "A12.accumulate-guard", key+"|store:"+st.Addr.Name(), pos(c, in), "the result slice is extended only when accumulate is true", "store to captured variable reachable with accumulate == false")
+			r.Require(guarded, "A12.accumulate-guard", key+"|store:"+addrName, pos(c, in), "the result slice is extended only when accumulate is true", "store to captured variable reachable with accumulate == false")
 			// (d) element appended is the decoded value
 			e := w.ExprOf(st.Val)
 			elemOK := false
@@ -228,7 +250,7 @@ func filteredPaginateCallback(c *Ctx, parent *ssa.Function, call *ssa.Call, cb *
 					}
 				}
 			}
-			r.Require(elemOK, "A12.element", key+"|store:"+st.Addr.Name(), pos(c, in), "the appended element is the item decoded from the callback's value", "appended: "+e.String())
+			r.Require(elemOK, "A12.element", key+"|store:"+addrName, pos(c, in), "the appended element is the item decoded from the callback's value", "appended: "+e.String())
 		}
 	}
 	r.Require(nApp >= 1, "A12.element", key+"|has-append", w.Pos(cb.Pos()), "the callback collects hits into a captured slice", "no store to a captured variable")
@@ -744,10 +766,18 @@ func filterComplete(c *Ctx, site *ssa.Call, cbv ssa.Value, storeIdx int, generic
 		return 0
 	}
 	cb := mc.Fn.(*ssa.Function)
+	off := 0
+	var root *ir.FCtx
+	if real := ir.BoundTarget(cb); real != nil {
+		cb, off = real, 1
+		root = w.FlatRootBound(mc, real)
+	} else {
+		root = w.FlatRootClosure(mc)
+	}
 	// the request: a parameter of the function the callback is written in, pointing to a struct with a Pagination field
 	var req *ssa.Parameter
 	var rst *types.Struct
-	for p := cb.Parent(); p != nil && req == nil; p = p.Parent() {
+	for p := mc.Parent(); p != nil && req == nil; p = p.Parent() {
 		for _, pr := range p.Params {
 			st, ok := ptrElem(pr.Type()).Underlying().(*types.Struct)
 			if !ok {
@@ -763,10 +793,9 @@ func filterComplete(c *Ctx, site *ssa.Call, cbv ssa.Value, storeIdx int, generic
 	if req == nil {
 		return 0
 	}
-	root := w.FlatRootClosure(mc)
 	itemNames := map[string]bool{}
 	for i, p := range cb.Params {
-		if i < 2 {
+		if i >= off && i < 2+off {
 			itemNames[p.Name()] = true
 		}
 	}
@@ -835,7 +864,7 @@ func filterComplete(c *Ctx, site *ssa.Call, cbv ssa.Value, storeIdx int, generic
 		}
 		key := fn(cb) + "|" + F
 		n++
-		if site.Parent() == cb.Parent() {
+		if site.Parent() == mc.Parent() {
 			se := w.Expand(w.ResolveCaptured(w.Expand(w.ExprOf(site.Common().Args[storeIdx]), 3)), 2)
 			if os.Getenv("MCDEBUG") == "filt" {
 				fmt.Fprintln(os.Stderr, "filt store", key, se.String())
